@@ -16,7 +16,13 @@ BASELINE_CMD = "cd /repo && /venv/bin/python -m pytest -ra -q -p no:cacheprovide
 
 def main():
     checks, na = [], []
+    disabled = {}
+    if (HERE / "disabled.json").exists():
+        disabled = json.loads((HERE / "disabled.json").read_text())
     for pid in ALL:
+        if pid in disabled:
+            na.append({"property_id": pid, "reason": disabled[pid]})
+            continue
         f = HERE / "props" / f"{pid.lower()}.py"
         thm = VERIF / "lean" / "AttrsModel" / "AttrsModel" / "Properties" / f"{pid}.lean"
         if not (f.exists() and thm.exists()):
